@@ -2068,11 +2068,19 @@ class LazyStackedTensorDict(TensorDictBase):
         if filter_empty in (None, True) and all(r is None for r in results):
             return
         if not inplace:
-            out = type(self)(
-                *results,
-                stack_dim=self.stack_dim,
-                stack_dim_name=self._td_dim_name,
-            )
+            try:
+                out = type(self)(
+                    *results,
+                    stack_dim=self.stack_dim,
+                    stack_dim_name=self._td_dim_name,
+                )
+            except Exception as e:
+                raise RuntimeError(
+                    f"Failed to reconstruct the lazy stack of tensordicts with class: {type(self)}. "
+                    f"One common issue is that the outputs of apply are a mix of None and non-None "
+                    f"values. Check that the outputs of apply() are all None or all non-None. "
+                    f"Otherwise, please report this bug on tensordict github."
+                ) from e
         else:
             out = self
         if names is not NO_DEFAULT:
